@@ -239,6 +239,8 @@ pub struct Outcome {
     /// scalars read by Op::Scalars
     pub scalars: [usize; 5],
     pub alloc_failed: u64,
+    /// the iterator type implements Debug: what it printed after the calls
+    pub iter_debug_text: Option<String>,
     /// uids dropped while the operation ran (in order), i.e. dropped by the library
     pub drops: Vec<u64>,
     /// result of the finishing call on an iterator: items it produced (in order), a count, a size hint
@@ -274,6 +276,15 @@ thread_local! { static PENDING_ALLOC_FAIL: std::cell::Cell<u64> = std::cell::Cel
 pub fn set_pending_alloc_fail(n: u64) { PENDING_ALLOC_FAIL.with(|p| p.set(n)); }
 fn arm_pending_alloc_fail() { let n = PENDING_ALLOC_FAIL.with(|p| p.replace(0)); if n > 0 { valloc::fail_nth(n); } }
 
+/// "Format it if it can be formatted": autoref dispatch picks the Debug impl when the iterator type has one (none of the
+/// crate's iterators has today) and does nothing otherwise. Formatting a partly consumed iterator must not read entries
+/// that were already handed out.
+pub struct DebugProbe<'a, T>(pub &'a T);
+pub trait ProbeViaDebug { fn render(&self) -> Option<String>; }
+impl<'a, T: std::fmt::Debug> ProbeViaDebug for DebugProbe<'a, T> { fn render(&self) -> Option<String> { Some(format!("{:?} {:#?}", self.0, self.0)) } }
+pub trait ProbeViaNothing { fn render(&self) -> Option<String> { None } }
+impl<'a, T> ProbeViaNothing for &DebugProbe<'a, T> {}
+
 macro_rules! drive {
     ($it:expr, $calls:expr, $forget:expr, $fin:expr, $out:expr, |$x:ident| $conv:expr) => {{
         let mut it = $it;
@@ -281,6 +292,7 @@ macro_rules! drive {
             let r = if *back { it.next_back() } else { it.next() };
             $out.yields.push(match r { Some($x) => $conv, None => Yield { k: None, v: None, kaddr: 0, vaddr: 0, none: true } });
         }
+        if let Some(text) = (&DebugProbe(&it)).render() { $out.iter_debug_text = Some(text); }
         match $fin {
             1 => { $out.fin_ran = true; if let Some($x) = it.last() { let y = $conv; $out.fin_items.push(y); } }
             2 => { $out.fin_ran = true; $out.fin_count = it.count(); }
